@@ -452,15 +452,17 @@ try:
         def scat_key(self):
             return "LL"
 
-    for (numpoints, numel) in ((1, 2), (9, 3), (41, 4)) if Q else ((1, 2), (9, 3), (41, 4), (401, 5), (4001, 4)):
+    # (1100 points x >= 15 timetraces x 16 bytes exceeds NumPy's 256 KiB threshold for eliding temporaries: the size
+    #  at which the defect repaired by 855bea9 appeared)
+    for (numpoints, numel) in ((1, 2), (9, 3), (41, 4), (1100, 5)) if Q else ((1, 2), (9, 3), (41, 4), (401, 5), (1100, 5), (4001, 4)):
         tx, rx = arim.ut.fmc(numel) if rng.random() < 0.5 else arim.ut.hmc(numel)
         w = lambda: np.ascontiguousarray(rng.standard_normal((numel, numpoints)) + 1j * rng.standard_normal((numel, numpoints)))
         ang = lambda: np.ascontiguousarray(rng.uniform(-np.pi, np.pi, (numel, numpoints)))
         rw = amodel.RayWeights({"txp": w()}, {"rxp": w()}, {}, {}, {"txp": ang(), "rxp": ang()})
         nmat = 12
         smat = rng.standard_normal((nmat, nmat)) + 1j * rng.standard_normal((nmat, nmat))
-        # a polynomial: + and * are correctly rounded element by element, whereas numpy's vectorised cos/sin may
-        # round differently in the SIMD body and in the scalar tail of a loop (a harness artefact seen at 4001 points)
+        # a polynomial: only correctly rounded + and * element by element, so that the test function itself cannot
+        # depend on how the grid is cut into blocks
         sfunc = lambda a, b: (0.25 * a) * a + 2j * ((0.5 * b) - a * b) + 0.5
         weights = rng.uniform(0.5, 2.0, len(tx))
         for kind, scattering in (("function", {"LL": sfunc}), ("matrix", {"LL": smat})):
